@@ -603,6 +603,14 @@ def _estimator_component(draw):
     return {"kind": kind, "seed": seed, "cfg": cfg}
 
 
+# constructor parameters changed through set_params in the middle of a
+# history (cfg key == parameter name)
+_SETTABLE = {
+    "SlidingWindowClassifier": {"window_size": [None, 1, 2, 3, 5, 8],
+                                "only_labeled": [False, True]},
+    "ParzenWindowClassifier": {"n_neighbors": [None, 1, 3],
+                               "class_prior": [0.0, 1.0]},
+}
 _REG_KINDS = ("NICKernelRegressor", "NadarayaWatsonRegressor",
               "SklearnRegressor", "SklearnNormalRegressor")
 _MULTI = ("AnnotatorEnsembleClassifier", "AnnotatorLogisticRegression")
@@ -688,6 +696,16 @@ def _estimator_case(draw):
         ops = free[:k] + head + free[k:]
     else:
         ops = free or [draw(fit)]
+    if kind in _SETTABLE and draw(st.integers(0, 2)) == 0:
+        # set_params between two fits: the next fit must follow the NEW
+        # parameters exactly like a fresh clone does (always directly
+        # followed by a fit - what partial_fit does after set_params is
+        # not specified)
+        key = draw(st.sampled_from(sorted(_SETTABLE[kind])))
+        sp = {"op": "set_params", "key": key,
+              "value": draw(st.sampled_from(_SETTABLE[kind][key]))}
+        k = draw(st.integers(0, len(ops)))
+        ops = ops[:k] + [sp, draw(fit)] + ops[k:]
     case = {"family": "estimator", "component": comp, "K": K, "task": task,
             "datasets": dss, "probe": probe, "weights": weights, "ops": ops}
     if (kind in ("SklearnClassifier", "SklearnRegressor",
@@ -933,7 +951,7 @@ def _train_call(obj, kind, X, y, w):
 # ======================================================================
 def _run_estimator(case):
     from sklearn.base import clone
-    comp = case["component"]
+    comp = copy.deepcopy(case["component"])  # cfg follows set_params ops
     kind = comp["kind"]
     K = case["K"]
     label = _est_label(comp)
@@ -964,6 +982,7 @@ def _run_estimator(case):
     seg_w = None
     direct = None        # wrapped sklearn estimator driven directly
     direct_ok = False
+    after_sp = None      # parameter changed by set_params since the last fit
     seen = set()
 
     def add(v):
@@ -977,6 +996,22 @@ def _run_estimator(case):
 
     for idx, op in enumerate(case["ops"]):
         name = op["op"]
+        if name == "set_params":
+            nxt = case["ops"][idx + 1:idx + 2]
+            if not nxt or nxt[0]["op"] != "fit":
+                continue  # only meaningful directly before a fit
+            kw = {op["key"]: op["value"]}
+            ok, r = guarded(lambda: obj.set_params(**kw))
+            ok2, r2 = guarded(lambda: pristine.set_params(**kw))
+            if not ok or not ok2:
+                add(exc_violation(label, r if not ok else r2,
+                                  f"{cfg_tag}&set_params", "set_params"))
+                break
+            comp["cfg"][op["key"]] = op["value"]
+            watch.base = _params(obj)
+            labels.append(f"set_params={op['key']}")
+            after_sp = op["key"]
+            continue
         if name in ("predict", "predict_proba", "predict_freq"):
             if not fitted:
                 continue
@@ -1003,6 +1038,10 @@ def _run_estimator(case):
                 optag = "refit_same_data"
         else:
             optag = "first_partial_fit" if n_fit == 0 else "later_partial_fit"
+        if after_sp and name == "fit":
+            optag += f"&after_set_params({after_sp})"
+        if name == "fit":
+            after_sp = None
         trig = f"{cfg_tag}&{optag}"
         if is_swc and wmode == "mixed":
             if name == "fit":
